@@ -557,6 +557,32 @@ def gen_minmax_pair(rng):
     return lhs, rhs, "minmax"
 
 
+def gen_multi_eq(rng):
+    """equations in at least two of the variables, to be solved for each of them in turn (call histories)"""
+    i, j, n = ("var", 0), ("var", 1), ("var", 2)
+    c = ("lit", rng.choice([1, 2, 3, 4]))
+    d = ("lit", rng.choice([1, 2, 3, 5]))
+    r = rng.random()
+    if r < 0.3:      # bilinear: i*j + n = n + c*j   (i = c, or j = 0)
+        x, y, z = rng.sample([i, j, n], 3)
+        e1, e2 = ("add", ("mul", x, y), z), ("add", z, ("mul", c, y))
+    elif r < 0.6:    # linear in everything
+        x, y, z = rng.sample([i, j, n], 3)
+        e1 = ("add", ("mul", c, x), rng.choice([y, ("mul", d, y), ("neg", y)]))
+        e2 = rng.choice([z, ("add", z, d), d, ("sub", d, x)])
+    elif r < 0.8:    # linear in one, quadratic in another
+        x, y = rng.sample([i, j, n], 2)
+        e1, e2 = ("add", x, ("mul", y, y)), ("add", ("mul", c, y), d)
+    else:
+        while True:
+            e1, e2 = gen_linear_eq(rng, ext=False)
+            if len(set(variables(e1)) | set(variables(e2))) >= 2:
+                break
+    if rng.random() < 0.5:
+        e1, e2 = e2, e1
+    return e1, e2
+
+
 def gen_linear_eq(rng, ext):
     """equation e1 = e2 to be solved for variable 0 ('i'); mostly linear in i with constant coefficient"""
     x = ("var", 0)
@@ -607,13 +633,14 @@ class Builder:
     """Builds PSyIR expressions (with the node factories) inside one Routine whose symbol table declares
     i, j, n (integer scalars), a, c (rank-1) and b (rank-2 integer arrays)."""
 
-    def __init__(self):
+    def __init__(self, names=None):
         from psyclone.psyir.nodes import Routine
+        self.names = list(names or VARS)     # Fortran names of the variables 0,1,2 (e.g. a Python keyword)
         from psyclone.psyir.symbols import DataSymbol, INTEGER_TYPE, ArrayType
         self.routine = Routine("c17")
         st = self.routine.symbol_table
         self.sym = {}
-        for v in VARS + ["lhs_target"]:
+        for v in self.names + ["lhs_target"]:
             self.sym[v] = st.new_symbol(v, symbol_type=DataSymbol, datatype=INTEGER_TYPE)
         for a in ARR1:
             self.sym[a] = st.new_symbol(a, symbol_type=DataSymbol, datatype=ArrayType(INTEGER_TYPE, [10]))
@@ -632,7 +659,7 @@ class Builder:
                 return UnaryOperation.create(UnaryOperation.Operator.MINUS, Literal(str(-e[1]), INTEGER_TYPE))
             return Literal(str(e[1]), INTEGER_TYPE)
         if t == "var":
-            return Reference(self.sym[VARS[e[1]]])
+            return Reference(self.sym[self.names[e[1]]])
         if t == "neg":
             return UnaryOperation.create(UnaryOperation.Operator.MINUS, self.node(e[1]))
         if t == "pow":
@@ -672,7 +699,7 @@ class Unreadable(Exception):
     pass
 
 
-def read_psyir(node):
+def read_psyir(node, names=VARS):
     """PSyIR expression -> tree.  n-ary MIN/MAX become nested binary ones; integer literal exponents become
     'pow', everything else 'powe'."""
     from psyclone.psyir.nodes import (Literal, Reference, UnaryOperation, BinaryOperation, IntrinsicCall,
@@ -684,7 +711,7 @@ def read_psyir(node):
             raise Unreadable(node.value)
     if isinstance(node, ArrayReference):
         name = node.symbol.name.lower()
-        idx = [read_psyir(c) for c in node.indices]
+        idx = [read_psyir(c, names) for c in node.indices]
         if name in ARR1 and len(idx) == 1:
             return ("arr1", ARR1.index(name), idx[0])
         if name in ARR2 and len(idx) == 2:
@@ -694,11 +721,11 @@ def read_psyir(node):
         raise Unreadable(name)
     if isinstance(node, Reference):
         name = node.symbol.name.lower()
-        if name in VARS:
-            return ("var", VARS.index(name))
+        if name in names:
+            return ("var", list(names).index(name))
         raise Unreadable(name)
     if isinstance(node, UnaryOperation):
-        a = read_psyir(node.children[0])
+        a = read_psyir(node.children[0], names)
         if node.operator == UnaryOperation.Operator.MINUS:
             return ("neg", a)
         if node.operator == UnaryOperation.Operator.PLUS:
@@ -706,7 +733,7 @@ def read_psyir(node):
         raise Unreadable(str(node.operator))
     if isinstance(node, BinaryOperation):
         O = BinaryOperation.Operator
-        a, b = read_psyir(node.children[0]), read_psyir(node.children[1])
+        a, b = read_psyir(node.children[0], names), read_psyir(node.children[1], names)
         if node.operator == O.POW:
             if b[0] == "lit" and b[1] >= 0:
                 return ("pow", a, b[1])
@@ -719,7 +746,7 @@ def read_psyir(node):
         I = IntrinsicCall.Intrinsic
         m = {I.MOD: "mod", I.MIN: "min", I.MAX: "max"}
         if node.intrinsic in m:
-            args = [read_psyir(c) for c in node.arguments]
+            args = [read_psyir(c, names) for c in node.arguments]
             out = args[0]
             for x in args[1:]:
                 out = (m[node.intrinsic], out, x)
